@@ -496,7 +496,9 @@ def startOp (ir : IR) (cfg : Cfg) (s : State) (k : Nat) (t : TaskSt) (op : Op) :
   | "tryread" =>
     match s.obj oi with
     | .rwlock rs w v p =>
-      if w.isNone then
+      -- re-entrant attempts "fail or are diagnosed" (property C04; std documents that a recursive read may
+      -- deadlock or panic): a try_read by a task that already holds the read lock reports WouldBlock
+      if w.isNone && !rs.contains k then
         [complete ir (s.setObj oi (.rwlock (insSorted k rs) w v p)) k { t with guards := t.guards ++ [(oi, .r)] } (lockRes p v)]
       else done .wouldblock
     | _ => unsupported
